@@ -248,6 +248,33 @@ def run_one(m, runs=None, timeout=600):
         shutil.rmtree(tmp, ignore_errors=True)
 
 
+# ---- continuation session: the three repairs of round 7, reverted --------
+mut("C05", "remove-strict-again", "ckl/functions.py",
+    """    def remove(self, name):
+        self.map.pop(name, None)""",
+    """    def remove(self, name):
+        del self.map[name]""")
+mut("C10", "hosts-report-asString-again", "ckl/errors.py",
+    """    try:
+        return str(value.asString().value)
+    except CklRuntimeError:
+        return str(value)""",
+    """    return str(value.asString().value)""")
+mut("C11", "require-nonstring-type-of-str", "ckl/nodes.py",
+    '"modulespec but got " + val.type(),',
+    '"modulespec but got " + modulespec.type(),')
+mut("C10", "remove-reaches-parent", "ckl/functions.py",
+    """    def remove(self, name):
+        self.map.pop(name, None)""",
+    """    def remove(self, name):
+        if name in self.map:
+            del self.map[name]
+        elif self.parent:
+            self.parent.remove(name)""")
+mut("C09", "run-host-drops-secure-with-legacy", "ckl/run.py",
+    "interpreter = Interpreter(args.secure, args.legacy)",
+    "interpreter = Interpreter(args.secure and not args.legacy, args.legacy)")
+
 def main(argv):
     only = None
     if "--only" in argv:
